@@ -22,18 +22,18 @@ import (
 const poolSize = 192
 
 type Solver struct {
-	cmd     *exec.Cmd
-	in      io.WriteCloser
-	out     *bufio.Reader
-	depth   int
-	Queries int
-	Sat     int
-	Unsat   int
-	Unknown int
-	Time    time.Duration
-	Bin     string
-	logf    *os.File
-	stack   []*Term
+	cmd       *exec.Cmd
+	in        io.WriteCloser
+	out       *bufio.Reader
+	depth     int
+	Queries   int
+	Sat       int
+	Unsat     int
+	Unknown   int
+	Time      time.Duration
+	Bin       string
+	logf      *os.File
+	stack     []*Term
 	lines     chan string
 	timeoutMs int
 	Restarts  int
